@@ -173,7 +173,7 @@ def run(prop: str, tier: str, seed: int) -> int:
                 small = []
     if small:
         groups.append(small)
-    units = [{"specs": g, "gvals": ("T", "F"), "tlc_workers": 2, "max_states": 150 if q else 4000,
+    units = [{"specs": g, "gvals": ("T", "F"), "tlc_workers": 2, "max_states": 150 if q else 600,
               "with_batch": all(sp.family == "R" for sp in g)} for g in groups]
     if NPROC > 1 and len(units) > 1:
         import concurrent.futures as cf
